@@ -30,14 +30,14 @@ wc_complement_dna = {   # ACGT => ACGT
         'T': 'A',       # 0001 => 1000
         'R': 'Y',       # 1010 => 0101
         'Y': 'R',       # 0101 => 1010
-        'S': 'B',       # 0110 => 0110
+        'S': 'S',       # 0110 => 0110
         'M': 'K',       # 1100 => 0011
-        'W': 'D',       # 1001 => 1001
-        'K': 'N',       # 0011 => 1100
+        'W': 'W',       # 1001 => 1001
+        'K': 'M',       # 0011 => 1100
         'V': 'B',       # 1110 => 0111
         'H': 'D',       # 1101 => 1011
-        'D': 'N',       # 1011 => 1101
-        'B': 'N',       # 0111 => 1110
+        'D': 'H',       # 1011 => 1101
+        'B': 'V',       # 0111 => 1110
         'N': 'N'}       # 1111 => 1111
 
 wc_complement_rna = {   # ACGU => ACGU
@@ -47,14 +47,14 @@ wc_complement_rna = {   # ACGU => ACGU
         'U': 'A',       # 0001 => 1000
         'R': 'Y',       # 1010 => 0101
         'Y': 'R',       # 0101 => 1010
-        'S': 'B',       # 0110 => 0110
+        'S': 'S',       # 0110 => 0110
         'M': 'K',       # 1100 => 0011
-        'W': 'D',       # 1001 => 1001
-        'K': 'N',       # 0011 => 1100
+        'W': 'W',       # 1001 => 1001
+        'K': 'M',       # 0011 => 1100
         'V': 'B',       # 1110 => 0111
         'H': 'D',       # 1101 => 1011
-        'D': 'N',       # 1011 => 1101
-        'B': 'N',       # 0111 => 1110
+        'D': 'H',       # 1011 => 1101
+        'B': 'V',       # 0111 => 1110
         'N': 'N'}       # 1111 => 1111
  
 wobble_complement_dna = {# ACGT => ACGT
